@@ -5,13 +5,14 @@ Line-protocol handler shared by the drivers of C01, C02, C03 (`Drv/C0x.lean` = `
 
 Requests (fields separated by blanks; names are plain identifiers, texts comma-separated code points):
 ```
-g <smart 0|1> <start> <tok> <syn> <kw> <skip> <prods>     -> ok amb=<0|1> | err <Class>
+g <smart 0|1> <start|-> <tok> <syn> <kw> <skip> <prods>   -> ok amb=<0|1> | err <Class>   (`-`: start_symbol_name not given = 'E')
       tok   = NAME~regexcps;NAME~regexcps…   (the model reads the names only)
       syn   = - | GROUP>TOKEN;…
       kw    = - | TOKEN~valuecps>TOKEN;…
       skip  = - (None) | () (empty set) | NAME;NAME…
       prods = - | SYM=alt|alt…;SYM=…   alt = ~ (empty) | s.s.s      (`SYM=` : no alternatives)
 p <textcps> <raw>                                         -> tree <sexp> | err <Class> | nogrammar
+ps <start> <textcps> <raw>                                -> the same for parse(text, start_symbol_name=<start>)
       raw   = - | GROUP~valuecps;…   (the lexemes found by `re`, before naming and skipping)
 amb                                                       -> amb=<0|1>   (is_ambiguous() again, after the parses)
 prods | suffix | table | nullables | first | follow       -> diagnostics (not part of the verdict)
@@ -116,7 +117,8 @@ def handleG (args : List String) : Option Parser × String :=
     match groups, parseSyn syn, parseKw kw, parseProds prods with
     | some groups, some syn, some kw, some prods =>
       let inp : CtorIn := { groups := groups, syn := syn, kw := kw, skip := parseSkip skip,
-                            start := parseName start, prods := prods, smart := smart = "1" }
+                            start := parseName (if start = "-" then "E" else start), prods := prods,
+                            smart := smart = "1" }
       match construct inp with
       | .ok P => (some P, "ok amb=" ++ (if isAmbiguous P.table then "1" else "0"))
       | .error e => (none, "err " ++ e.name)
@@ -131,6 +133,14 @@ def handle (st : Option Parser) (line : String) : Option Parser × String :=
     match st, parseRaw raw with
     | some P, some toks =>
       (st, match P.parse toks parseFuel with
+           | .ok t => "tree " ++ showTree t
+           | .error e => "err " ++ e.name)
+    | none, _ => (st, "nogrammar")
+    | _, none => (st, "bad-op")
+  | ["ps", s, _, raw] =>
+    match st, parseRaw raw with
+    | some P, some toks =>
+      (st, match P.parseFrom (parseName s) toks parseFuel with
            | .ok t => "tree " ++ showTree t
            | .error e => "err " ++ e.name)
     | none, _ => (st, "nogrammar")
